@@ -136,6 +136,9 @@ pub fn profile(prop: &str) -> Profile {
             p.w_unsub = 10;
             p.w_build = 12;
             p.w_bind = 3;
+            // lifecycle calls made from inside an observer's own handlers
+            p.hfx_pct = 40;
+            p.same_obs = true;
         }
         "C11" => {
             p.w_onupdate = 3;
